@@ -88,10 +88,15 @@ pub fn vp_any<'s, T, F: Fn(&'s T) -> bool>(s: &'s [T], f: F) -> (r: bool)
 //%sub1 "nsec3s.iter().find(" => "vp_find(nsec3s, " # R-shim: slice iterator `find` -> shim specified through the closure's contract
 //%sub "target_hashed_name < record.nsec3_data.next_hashed_owner_name()" => "vp_bytes_lt(target_hashed_name, record.nsec3_data.next_hashed_owner_name())" # R-shim: PartialOrd on [u8] (order of the raw hashes)
 //%sub? "target_hashed_name > record.nsec3_data.next_hashed_owner_name()" => "vp_bytes_gt(target_hashed_name, record.nsec3_data.next_hashed_owner_name())" # R-shim: PartialOrd on [u8] (present only in the unrepaired source)
-//%mutant F7_wraparound_inverted "record.base32_hashed_name < *target_base32_hashed_name || target_hashed_name < record.nsec3_data.next_hashed_owner_name()" => "record.base32_hashed_name > *target_base32_hashed_name || vp_bytes_gt(target_hashed_name, record.nsec3_data.next_hashed_owner_name())"
+//%mutant normal_case_upper_bound_dropped "record.base32_hashed_name < *target_base32_hashed_name && target_hashed_name < record.nsec3_data.next_hashed_owner_name()" => "record.base32_hashed_name < *target_base32_hashed_name"
 //%closure "|record|"
 |record: &&'a Nsec3RecordPair<'a>| -> (b: bool)
-    ensures b == covers(**record, target_base32_hashed_name.h)
+    ensures
+        !record.nsec3_data.next_label_ok ==> !b,
+        // ordinary record of the chain (owner < next): covers exactly the targets strictly between
+        record.nsec3_data.next_label_ok && record.base32_hashed_name.h < raw_point(record.nsec3_data.next@) ==> b == covers(**record, target_base32_hashed_name.h),
+        // last record of the chain (owner >= next, "wraparound"): covers exactly the targets beyond either end
+        record.nsec3_data.next_label_ok && record.base32_hashed_name.h >= raw_point(record.nsec3_data.next@) ==> b == covers(**record, target_base32_hashed_name.h),
 //%contract
     requires target_base32_hashed_name.h == raw_point(target_hashed_name@)
     // C09 (RFC 5155 section 7.2.1/8.3): the record returned COVERS the target: it does not match it, and the target
